@@ -28,23 +28,8 @@ theorem moonbit_I32FromS8 : ∀ e ∈ G.moonbit_I32FromS8, e.Correct := by
   unfold G.moonbit_I32FromS8; scalar_tac
 example : G.moonbit_I32FromS8 ≠ [] := by decide
 
-/- FULL STATEMENT (false of the pinned tree, DESIGN §9 F5):
-     theorem moonbit_S8FromI32 : ∀ e ∈ G.moonbit_S8FromI32, e.Correct
-   MoonBit emits `(x - 0x100)` for S8FromI32.  In flat position this equals the canonical lift only when the
-   core value lies in [0x80, 0xff] (the zero-extended encodings of the negative values — a host produces the
-   sign-extended ones); in memory position the operand comes from `i32.load8_s` and the result is wrong for
-   every content of memory. -/
-/-- witness: flat position, core value 5 lifts to 5 - 0x100, not 5 -/
-theorem moonbit_S8FromI32_full_false : ¬ ∀ e ∈ G.moonbit_S8FromI32, e.Correct := by
-  intro h
-  have h0 := Entry.evalAt_of_correct _ (h _ (List.getElem_mem (l := G.moonbit_S8FromI32) (n := 0) (by decide))) 5 false
-  revert h0; decide
-/-- what does hold: in flat position the expression is the canonical lift on [0x80, 0xff] -/
-theorem moonbit_S8FromI32_partial : ∀ e ∈ G.moonbit_S8FromI32, e.pos = .flat →
-    e.CorrectIf (fun c _ => decide (0x80#64 ≤ c ∧ c ≤ 0xff#64)) := by
-  unfold G.moonbit_S8FromI32; scalar_tac
-/-- in memory position it is wrong for every content of memory -/
-theorem moonbit_S8FromI32_mem_always_wrong : ∀ e ∈ G.moonbit_S8FromI32, e.pos = .mem → ∀ m dbg, (e.evalAt m dbg).1 = false := by
+/-- moonbit: s8 lifts from the low 8 bits with its own signedness, for all 2^32 core values -/
+theorem moonbit_S8FromI32 : ∀ e ∈ G.moonbit_S8FromI32, e.Correct := by
   unfold G.moonbit_S8FromI32; scalar_tac
 example : G.moonbit_S8FromI32 ≠ [] := by decide
 
@@ -63,23 +48,8 @@ theorem moonbit_I32FromS16 : ∀ e ∈ G.moonbit_I32FromS16, e.Correct := by
   unfold G.moonbit_I32FromS16; scalar_tac
 example : G.moonbit_I32FromS16 ≠ [] := by decide
 
-/- FULL STATEMENT (false of the pinned tree, DESIGN §9 F5):
-     theorem moonbit_S16FromI32 : ∀ e ∈ G.moonbit_S16FromI32, e.Correct
-   MoonBit emits `(x - 0x10000)` for S16FromI32.  In flat position this equals the canonical lift only when the
-   core value lies in [0x8000, 0xffff] (the zero-extended encodings of the negative values — a host produces the
-   sign-extended ones); in memory position the operand comes from `i32.load16_s` and the result is wrong for
-   every content of memory. -/
-/-- witness: flat position, core value 5 lifts to 5 - 0x10000, not 5 -/
-theorem moonbit_S16FromI32_full_false : ¬ ∀ e ∈ G.moonbit_S16FromI32, e.Correct := by
-  intro h
-  have h0 := Entry.evalAt_of_correct _ (h _ (List.getElem_mem (l := G.moonbit_S16FromI32) (n := 0) (by decide))) 5 false
-  revert h0; decide
-/-- what does hold: in flat position the expression is the canonical lift on [0x8000, 0xffff] -/
-theorem moonbit_S16FromI32_partial : ∀ e ∈ G.moonbit_S16FromI32, e.pos = .flat →
-    e.CorrectIf (fun c _ => decide (0x8000#64 ≤ c ∧ c ≤ 0xffff#64)) := by
-  unfold G.moonbit_S16FromI32; scalar_tac
-/-- in memory position it is wrong for every content of memory -/
-theorem moonbit_S16FromI32_mem_always_wrong : ∀ e ∈ G.moonbit_S16FromI32, e.pos = .mem → ∀ m dbg, (e.evalAt m dbg).1 = false := by
+/-- moonbit: s16 lifts from the low 16 bits with its own signedness, for all 2^32 core values -/
+theorem moonbit_S16FromI32 : ∀ e ∈ G.moonbit_S16FromI32, e.Correct := by
   unfold G.moonbit_S16FromI32; scalar_tac
 example : G.moonbit_S16FromI32 ≠ [] := by decide
 
